@@ -41,12 +41,13 @@ def main(argv=None):
     except (MachineryError, TLCError) as e:
         print("MACHINERY-FAILURE %s: %s" % (pid, e), flush=True)
         ctx.write_evidence(status="machinery-failure")
-        return 2
+        # violations already established stay violations (a broken tree can also trip a self-test)
+        return 1 if ctx.violations else 2
     except Exception:
         traceback.print_exc()
         print("MACHINERY-FAILURE %s: unexpected exception in harness" % pid, flush=True)
         ctx.write_evidence(status="machinery-failure")
-        return 2
+        return 1 if ctx.violations else 2
     ctx.write_evidence()
     if ctx.violations:
         print("%s: %d violation class(es)" % (pid, len(ctx.violations)))
